@@ -504,6 +504,37 @@ fn c02_directed(rep: &mut Report, seed: u64) {
     }
 }
 
+/// Directed scripts for C19: a run that BOTH marks a call / canon as sent to another peer and ends with a non-zero return code
+/// (a catchable failure at top level after a fire-and-forget `par`, an unprocessed call result), and fan-out to one peer twice.
+fn c19_directed(rep: &mut Report, seed: u64) {
+    let p = peers_for(3);
+    let (a, b, c) = (&p[0].id, &p[1].id, &p[2].id);
+    let scripts: Vec<String> = vec![
+        format!(r#"(seq (call "{a}" ("svc" "obj_1") [] o) (seq (par (call "{b}" ("svc" "str_2") []) (null)) (ap o.$.missing y)))"#),
+        format!(r#"(seq (call "{a}" ("svc" "str_1") [] s) (seq (par (call "{b}" ("svc" "str_2") [] x) (null)) (match s "nope" (null))))"#),
+        format!(r#"(seq (par (call "{b}" ("svc" "str_1") []) (null)) (fail 7 "stop"))"#),
+        format!(r#"(seq (seq (ap 1 $s) (par (canon "{c}" $s #cs) (null))) (seq (call "{a}" ("svc" "arr_2") [] l) (call "{a}" ("svc" "echo_3") [l.$.[9]])))"#),
+        format!(r#"(par (call "{b}" ("svc" "str_1") [] x) (par (call "{b}" ("svc" "str_2") [] y) (call "{c}" ("svc" "echo_3") [x y])))"#),
+    ];
+    for (si, air) in scripts.iter().enumerate() {
+        if air_parser::parse(air).is_err() { rep.oracle_fail(json!({"why": "harness: directed C19 script does not parse", "input": {"air": air}})); continue; }
+        for round in 0..3u64 {
+            let mut net = Net::new(air, &p, &format!("c19-directed-{si}-{round}"));
+            let mut r2 = Rng::new(seed ^ (si as u64 * 4099 + round * 65537));
+            net.run_random(&mut r2, 60);
+            rep.stat("c19_directed_histories");
+            for st in &net.log {
+                rep.evaluations += 1;
+                rep.stat(&format!("c19_directed_code:{}", st.outcome.ret_code));
+                if let Some(why) = check_c19_step(&net, st) {
+                    rep.oracle_fail(json!({"why": format!("{why} [directed script {si}, step {} on peer {}]", st.step, net.peers[st.peer].peer.name), "input": step_json(&net, st), "scenario": "c19 directed"}));
+                    return;
+                }
+            }
+        }
+    }
+}
+
 /// C04 on the stream / canon template families of the stream checks (several writers, canon at a designated peer with late
 /// writers, par canons, folds, nested folds, maps): honest histories with races on canon peers and fan-in, which the general
 /// generator produces rarely.  Known-finding classes of other properties (recursive folds) are not generated here.
@@ -591,6 +622,7 @@ pub fn run_property(prop: &str, ctx: &mut Ctx, rep: &mut Report) {
         }
     }
     if prop == "C02" { c02_directed(rep, ctx.seed); }
+    if prop == "C19" { c19_directed(rep, ctx.seed); }
     if prop == "C04" { c04_stream_templates(rep, ctx.seed, if ctx.thorough { 1500 } else { 60 }); }
     if prop == "C20" { c20_canon_map_collision_probe(rep); c20_map_scenarios(rep, ctx.seed, if ctx.thorough { 24 } else { 8 }); }
     for hi in 0..pl.histories {
